@@ -127,6 +127,32 @@ impl Case17 {
                 }
             }
         }
+        // homogeneity under an exact rescaling of the seed by a power of two (far below / above one)
+        for scale in [2f64.powi(-60), 2f64.powi(40)] {
+            if IS_F32 && scale < 1.0 {
+                continue;
+            }
+            let ss: Vec<f64> = self.s1.iter().map(|x| x * scale).collect();
+            let gs = match run(Some(&ss), None) {
+                Ok(g) => g,
+                Err(p) => return e("panic-for-rescaled-seed", format!("the pass with s1 ran, but the pass with {:e}*s1 panicked: {}", scale, p)),
+            };
+            for h in 0..g1.len() {
+                match (&g1[h], &gs[h]) {
+                    (None, None) => {}
+                    (Some((_, v1)), Some((_, vs))) if v1.len() == vs.len() => {
+                        for i in 0..v1.len() {
+                            let want = v1[i] * scale;
+                            let ok = if exact { vs[i] == want } else { m1[h].as_ref().map_or(true, |m| close(vs[i], want, 2.0 * m[i] * scale, false) || (vs[i] - want).abs() <= 1e-9 * scale * (m[i] + want.abs() / scale)) };
+                            if !ok {
+                                return e("not-homogeneous", format!("handle {} element {}: g({:e}*s1) = {:e} but {:e}*g(s1) = {:e} (s1 {:?})", h, i, scale, vs[i], scale, want, self.s1));
+                            }
+                        }
+                    }
+                    (a, b) => return e("linearity-presence", format!("handle {}: gradient present for s1: {}, for {:e}*s1: {}", h, a.is_some(), scale, b.is_some())),
+                }
+            }
+        }
         // omitted seed == explicit ones, bitwise
         let ones = vec![1.0; self.s1.len()];
         let go = match run(Some(&ones), None) {
@@ -198,7 +224,7 @@ pub struct R17 {
 const COEF: [f64; 8] = [1.0, -1.0, 2.0, 0.5, 0.0, -0.5, 3.0, 0.25];
 
 fn seed_vec(kind: u8, n: usize, vseed: u64, exact: bool) -> Vec<f64> {
-    match kind % 4 {
+    match kind % 6 {
         0 => gen_vals(vseed, n, if exact { VKind::Int } else { VKind::Small }),
         1 => {
             // one-hot
@@ -207,6 +233,8 @@ fn seed_vec(kind: u8, n: usize, vseed: u64, exact: bool) -> Vec<f64> {
             v
         }
         2 => gen_vals(vseed, n, VKind::Int).iter().enumerate().map(|(i, x)| if (vseed >> (i % 60)) & 1 == 1 { 0.0 } else { *x }).collect(),
+        // uniform: every entry equal
+        4 => vec![1.0 + (vseed % 3) as f64; n],
         _ => gen_vals(vseed, n, VKind::Int),
     }
 }
@@ -231,10 +259,14 @@ pub fn build(cfg: &GenCfg, r: &R17) -> Option<Case17> {
     m.handles.get(root)?.as_ref()?;
     let n = m.node_of(root).t.numel();
     let s1 = seed_vec(r.p[0], n, r.vseed, cfg.exact_only);
+    let s1: Vec<f64> = if s1.iter().all(|v| *v == 0.0) { vec![1.0; n] } else { s1 };
     let mut s2 = seed_vec(r.p[1], n, r.vseed ^ 0x55, cfg.exact_only);
     if r.p[2] % 4 == 0 {
         // s2 mirrors s1 on part of the entries so that the combination has exact zeros
         s2 = s1.iter().enumerate().map(|(i, x)| if i % 2 == 0 { -x } else { *x }).collect();
+    } else if r.p[2] % 4 == 1 {
+        // s2 complements s1 to a uniform array: two non-uniform seeds whose sum is uniform
+        s2 = s1.iter().map(|x| 7.0 - x).collect();
     }
     let dims = m.node_of(root).t.dims.clone();
     let alts = refmodel::tensor::shapes_with_numel(n);
